@@ -119,6 +119,8 @@ impl GenerationPass for AvailableValuePass {
         // the values with the correct previous nodes are calculated.
         #[allow(clippy::mutable_key_type)]
         let mut visited = HashSet::new();
+        #[allow(clippy::mutable_key_type)]
+        let mut seeds = HashSet::new();
         while changed {
             #[cfg(riscv_analysis_verif)]
             crate::verif::tick("available-sweep");
@@ -131,7 +133,10 @@ impl GenerationPass for AvailableValuePass {
                 // empty meet as the empty map made such a node and the head
                 // of its loop flip between two states forever. Leave it for
                 // the next sweep, when a predecessor has been computed.
-                if !node.prevs().is_empty() && !node.prevs().iter().any(|x| visited.contains(x)) {
+                if !node.prevs().is_empty()
+                    && !node.prevs().iter().any(|x| visited.contains(x))
+                    && !seeds.contains(&node)
+                {
                     continue;
                 }
                 // in[n] = AND out[p] for all p in prev[n]
@@ -236,6 +241,17 @@ impl GenerationPass for AvailableValuePass {
             }
             // Nodes that were left out can be computed once the set grows.
             changed |= visited.len() != visited_before;
+
+            // What is still left out now can only be reached through itself
+            // (a cycle that nothing computed leads into, such as a loop in
+            // unreachable code). Start such a cycle from one of its nodes
+            // with nothing known, and go on.
+            if !changed {
+                if let Some(seed) = cfg.iter().find(|n| !visited.contains(n)) {
+                    seeds.insert(seed);
+                    changed = true;
+                }
+            }
         }
         Ok(())
     }
